@@ -1,14 +1,18 @@
 //! Engine `paynet`: payment-level driver (C03 outbound payments, C04 inbound payments).
 //! Started as a copy of `channet` (real `ChannelManager`s, harness-owned per-direction FIFO message
 //! queues, every wire message delivered by its own `handle_*` call) and extended with:
-//!   * topologies  line (A-B-..-D), fan (A-{B1..Bk}-D, k=2 is the diamond), par (A=D over k channels)
+//!   * topologies  line (A-B-..-D), fan (A-{B1..Bk}-D, k=2 is the diamond), fan2 (A-{Bi-Ci}-D),
+//!     par (A=D over k parallel channels); all nodes are brought to the same height, the block
+//!     connection style is fixed per script
 //!   * hand-built routes (`send_payment_with_route`) with per-part path, amount, final CLTV and
 //!     `RecipientOnionFields` (payment secret of a chosen registration, optionally bit-flipped,
 //!     chosen `total_msat`), keysend and router-driven sends with retries
 //!   * inbound registrations (`create_inbound_payment(_for_hash)`), claim / fail at chosen heights
 //!   * duplicate PaymentIds, `abandon_payment`, timer ticks, blocks, header-time jumps
 //!   * held events (the user handles events only when the script says so), manager snapshots and
-//!     restart of a node from a snapshot (`_reload_node`)
+//!     restart of a node from a snapshot (`_reload_node`), in sync with the monitors or stale
+//!   * `pump` with a barrier node (resolutions are handed to the payer one by one), `deliver_until`
+//!   * a user model: claim_funds only in answer to a handled PaymentClaimable (see `claim`)
 //! It only drives the real code and records what a user / the wire can observe (NDJSON).
 //!
 //! usage: paynet --scripts FILE --out TRACE [--seed S]
@@ -148,6 +152,8 @@ struct Net {
 	claimable_seen: Vec<(usize, usize)>,
 	/// claim_deadline of the last PaymentClaimable the node's user handled, per (node, hash)
 	deadlines: HashMap<(usize, usize), u32>,
+	/// inbound HTLCs (chan, id) of the hash the node held when its user handled the last PaymentClaimable
+	shown_htlcs: HashMap<(usize, usize), Vec<(usize, u64)>>,
 	/// set after a restart from a snapshot the monitors have overtaken: LDK closes those channels, the
 	/// rest of the script (on-chain resolution) is outside this engine
 	ended: bool,
@@ -354,6 +360,8 @@ impl Net {
 				let total = onion_fields.map(|f| f.total_mpp_amount_msat as i64).unwrap_or(-1);
 				if !self.claimable_seen.contains(&(i, h)) { self.claimable_seen.push((i, h)); }
 				if let Some(d) = claim_deadline { self.deadlines.insert((i, h), d); }
+				let held = self.inbound_of_hash(i, &payment_hash);
+				self.shown_htlcs.insert((i, h), held);
 				self.ev(json!({"ev":"event","node":i,"kind":"PaymentClaimable","hash":h,"amt":amount_msat,
 					"deadline":claim_deadline.map(|d| d as i64).unwrap_or(-1),"via":via,"spont":spont,"total":total,"height":self.height()}));
 			},
@@ -440,6 +448,17 @@ impl Net {
 
 	/// What a user can see of its inbound HTLCs: those in state `Committed` are the ones the next
 	/// `process_pending_htlc_forwards` may act on.
+	fn inbound_of_hash(&self, i: usize, hash: &PaymentHash) -> Vec<(usize, u64)> {
+		let mut out = Vec::new();
+		for cd in self.nodes[i].node.list_channels() {
+			let c = self.chan(&cd.channel_id);
+			for h in cd.pending_inbound_htlcs.iter() {
+				if h.payment_hash == *hash && h.state == Some(InboundHTLCStateDetails::Committed) { out.push((c, h.htlc_id)); }
+			}
+		}
+		out
+	}
+
 	fn committed_inbound(&mut self, i: usize) -> Vec<Value> {
 		let mut out = Vec::new();
 		for cd in self.nodes[i].node.list_channels() {
@@ -835,6 +854,10 @@ impl Net {
 				let h = self.hash(&hash.0);
 				// a user calls claim_funds only in response to a PaymentClaimable it has handled
 				if name == "claim" && !op["force"].as_bool().unwrap_or(false) {
+					// ... and only while it holds no HTLC of that hash that is newer than what was shown
+					// (KNOWN finding claim_funds_drops_unshown_htlcs, see checks/c04.py)
+					let shown = self.shown_htlcs.get(&(dst, h)).cloned().unwrap_or_default();
+					if self.inbound_of_hash(dst, &hash).iter().any(|x| !shown.contains(x)) { self.skipped += 1; return; }
 					match self.claimable_seen.iter().position(|x| *x == (dst, h)) {
 						Some(p) => { self.claimable_seen.remove(p); },
 						None => { self.skipped += 1; return; },
@@ -1002,7 +1025,7 @@ fn build_net(run: u64, seed: u64, cfg: &Value, log: &Log) -> Net {
 	let mut net = Net {
 		nodes, cfgs, persisters, queues: HashMap::new(), connected, log: log.clone(), chans, hashes: Vec::new(),
 		regs: HashMap::new(), hold: vec![false; n], saves: vec![None; n], last_recent: vec![json!([]); n], run, seed,
-		time0, time: time0, executed: 0, skipped: 0, restarts: 0, closed_seen: false, claimable_seen: Vec::new(), deadlines: HashMap::new(), ended: false, accepted_ids: Vec::new(), id_reused: false,
+		time0, time: time0, executed: 0, skipped: 0, restarts: 0, closed_seen: false, claimable_seen: Vec::new(), deadlines: HashMap::new(), shown_htlcs: HashMap::new(), ended: false, accepted_ids: Vec::new(), id_reused: false,
 	};
 	let _ = net.cfgs;
 	let c = lightning::verif::consts();
